@@ -448,7 +448,10 @@ def _check_definition(s, R, v, k, bump):
         oid = 'O2'
         if metric == 'r2' and np.all(pts[:, 1] == pts[0, 1]):
             bump('probe.r2_tss_zero')
-    w = refmodel.rel_width(lo, hi)
+    # width of the reference interval relative to the natural scale of the metric (1 for the relative
+    # metrics and R2, the y range for the global RMSE): a reporting measure only
+    scale = 1.0 if s.api != 'rmse' else (float(np.max(pts[:, 1]) - np.min(pts[:, 1])) or float(np.max(np.abs(pts[:, 1]))) or 1.0)
+    w = (hi - lo) / max(abs(hi), scale) if math.isfinite(hi) else math.inf
     if w < 1e-9:
         bump('ref.tight')
     elif w < 1e-3:
